@@ -187,6 +187,7 @@ func runC32(c *Ctx) []Obligation {
 	)
 	out = append(out, c.claimDeletedUnderLookupKey(P))
 	out = append(out, sweepsVisitEverything(c, P, "(x/pocketcore/keeper.Keeper).DeleteExpiredClaims")...)
+	out = append(out, claimStorage(c, P)...)
 	return out
 }
 
@@ -297,6 +298,7 @@ func runC31(c *Ctx) []Obligation {
 			Why:    "the index is a function of the generator {block hash, session header hash} and the claimed count only"},
 	})...)
 	out = append(out, c.entropyWindow(P), c.generatorFields(P))
+	out = append(out, entropyHeight(c, P)...)
 	return out
 }
 
@@ -606,6 +608,8 @@ func (c *Ctx) sessionContextRoles(P string) []Obligation {
 			}
 			if !strings.Contains(a0, "PrevCtx(") {
 				o.fail(o.Pos, "the session-start context %s is not a historical context obtained from PrevCtx", a0)
+			} else if !regexp.MustCompile(`^invoke types\.Ctx\.PrevCtx\(ctx, ([\w.:]*[sS]essionBlockHeight|\(x/pocketcore/keeper\.Keeper\)\.GetLatestSessionBlockHeight\(k, ctx\))\)#0$`).MatchString(a0) {
+				o.fail(o.Pos, "the first context %s is not the context of the session's first block (PrevCtx at the session block height itself): the two roles may be exchanged", a0)
 			}
 			out = append(out, *o)
 		}
